@@ -73,6 +73,10 @@ func (g *detGen) aroundT() int {
 
 func (g *detGen) first() [][]uint16 {
 	c := g.c
+	if g.style == 3 {
+		// large-sensor stratum: a uniform scene (no per-pixel draws) at a level drawn over the whole 16-bit range
+		return zz.NewPix(c.W, c.H, clampPix(g.r.OneOf(g.r.Range(1, 65535), g.r.Range(50000, 65535), g.r.Range(12000, 35000))))
+	}
 	p := zz.NewPix(c.W, c.H, 0)
 	base := g.aroundT()
 	for y := range p {
@@ -203,6 +207,15 @@ func genDetScenario(r *verifsim.Run, focus string) *aScenario {
 	case "C08", "C09":
 		c.Motion.DynamicThreshold = r.Chance(1, 2)
 	}
+	if !c.Motion.DynamicThreshold && r.Chance(1, 3) {
+		// the dynamic-threshold bounds are configured although the threshold is fixed: they must not matter
+		T := int(c.Motion.TempThresh)
+		c.Motion.TempThreshMin = clampPix(T + r.Range(-400, 400))
+		c.Motion.TempThreshMax = clampPix(int(c.Motion.TempThreshMin) + r.Range(0, 400))
+		if r.Chance(1, 2) {
+			c.Motion.TempThreshMin = 0
+		}
+	}
 	if c.Motion.DynamicThreshold {
 		T := int(c.Motion.TempThresh)
 		switch r.Draw(4) { // each bound unset (0) or set
@@ -218,6 +231,28 @@ func genDetScenario(r *verifsim.Run, focus string) *aScenario {
 	}
 	g := &detGen{r: r, c: c, style: r.Pick(5, 1, 0)}
 	n := r.Range(10, 120)
+	if focus == "C15" && r.Chance(1, 40) {
+		// realistic and large sensors (Lepton 160x120, Boson 320x256 / 640x512): sums over the whole
+		// interior must not overflow; few frames, because a frame costs milliseconds here
+		dims := [][2]int{{160, 120}, {320, 256}, {640, 512}}[r.Draw(3)]
+		c.W, c.H = dims[0], dims[1]
+		g.style = 3
+		n = r.Range(3, 8)
+		c.Motion.TempThreshMin, c.Motion.TempThreshMax = 0, 0
+		switch r.Draw(3) {
+		case 1:
+			c.Motion.TempThreshMax = uint16(r.Range(20000, 65000))
+		case 2:
+			c.Motion.TempThreshMin = uint16(r.Range(1000, 40000))
+			c.Motion.TempThreshMax = uint16(r.Range(40000, 65000))
+		}
+		c.Preview = 0
+		c.Fps = 9
+		if c.Trig == 0 {
+			c.Trig = 1
+			c.Motion.TriggerFrames = 1
+		}
+	}
 	pClear := 0
 	if r.Chance(1, 2) {
 		pClear = r.OneOf(10, 40)
@@ -227,6 +262,15 @@ func genDetScenario(r *verifsim.Run, focus string) *aScenario {
 		pFFC = r.OneOf(0, 10, 30)
 		if focus == "C09" {
 			pFFC = r.OneOf(10, 30, 60)
+		}
+	}
+	if (focus == "C07" || focus == "C09") && r.Chance(1, 4) {
+		// storage failures must not change what the detector does (e.g. a failed stop at a camera reset)
+		for i, k := 0, r.Range(1, 4); i < k; i++ {
+			sc.Plans[zz.SinkMotion].Add('X', r.Draw(6))
+		}
+		if r.Chance(1, 2) {
+			sc.Plans[zz.SinkMotion].Add('W', r.Draw(60))
 		}
 	}
 	for len(sc.Ev) < n {
@@ -704,4 +748,7 @@ func runADyn(r *verifsim.Run) {
 		r.Nontrivial(fmt.Sprintf("%v:%s:%d", sc.Cfg, motionString(tr), nChanges))
 	}
 	r.Distinct("c15", fmt.Sprintf("min%v:max%v:edge%d:preview%d", m.TempThreshMin != 0, m.TempThreshMax != 0, c.Edge, c.Preview*c.Fps))
+	if c.W >= 160 && nChanges > 0 {
+		r.Probe(fmt.Sprintf("large-sensor-%dx%d", c.W, c.H))
+	}
 }
